@@ -187,7 +187,10 @@ def canon_item(v):
 # the real code
 
 
-def run_real(hist: Dict[str, Any]) -> List[Any]:
+DENOTE_CAP = 8
+
+
+def _maker(hist: Dict[str, Any]):
     logging.getLogger("torchdata.stateful_dataloader.stateful_dataloader").setLevel(logging.ERROR)
     if hist["facade"] == "loader":
         from torchdata.nodes import Loader
@@ -199,6 +202,34 @@ def run_real(hist: Dict[str, Any]) -> List[Any]:
 
         def mk():
             return fac(hist)
+    return mk
+
+
+def denote_real(hist: Dict[str, Any], mk, token) -> List[Any]:
+    """What a state dict denotes on the real code: loaded into a freshly built identical loader, the items of
+    the first epoch (at most DENOTE_CAP), whether it ended, and for the epoch-dependent root the epoch the
+    sampler was given.  Makes a wrong token visible at the moment it is taken."""
+    try:
+        ld = mk()
+        ld.load_state_dict(token)
+        it = iter(ld)
+        epoch = ld.root.sampler.epoch if hist["facade"] == "loader" and hist["root"]["kind"] == "sampler" else None
+        items, stopped = [], False
+        for _ in range(DENOTE_CAP):
+            try:
+                items.append(canon_item(next(it)))
+            except StopIteration:
+                stopped = True
+                break
+        return [items, stopped, epoch]
+    except Exception as e:
+        return ["error", type(e).__name__]
+
+
+def run_real(hist: Dict[str, Any], created: Optional[List[int]] = None) -> List[Any]:
+    """Observations of the history on the real code. If `created` is a list it receives, per op, the number
+    of `_get_iterator` calls of the current loader object (SDL; a K-D observable only)."""
+    mk = _maker(hist)
     obj = mk()
     handle = None
     toks: List[Any] = []
@@ -211,21 +242,22 @@ def run_real(hist: Dict[str, Any]) -> List[Any]:
             elif op[0] in ("next", "exhaust"):
                 if handle is None:
                     obs.append("nohandle")
-                    continue
-                items, stopped = [], False
-                for _ in range(op[1] if op[0] == "next" else LIMIT):
-                    try:
-                        items.append(canon_item(next(handle)))
-                    except StopIteration:
-                        stopped = True
-                        break
-                obs.append(["items", items, stopped])
+                else:
+                    items, stopped = [], False
+                    for _ in range(op[1] if op[0] == "next" else LIMIT):
+                        try:
+                            items.append(canon_item(next(handle)))
+                        except StopIteration:
+                            stopped = True
+                            break
+                    obs.append(["items", items, stopped])
             elif op[0] == "sd":
-                toks.append(obj.state_dict())
-                obs.append(["tok", len(toks) - 1])
+                tok = obj.state_dict()
+                toks.append(tok)
+                obs.append(["tok", len(toks) - 1, denote_real(hist, mk, tok)])
             elif op[0] == "peek":
-                obj.state_dict()
-                obs.append(["tok", len(toks)])
+                tok = obj.state_dict()
+                obs.append(["tok", len(toks), denote_real(hist, mk, tok)])
             elif op[0] == "load":
                 obj.load_state_dict(toks[op[1]])
                 obs.append("ok")
@@ -240,39 +272,9 @@ def run_real(hist: Dict[str, Any]) -> List[Any]:
                 raise ValueError(op)
         except Exception as e:  # any exception other than StopIteration: kind only
             obs.append(["error", type(e).__name__])
+        if created is not None:
+            created.append(getattr(obj, "created", 0))
     return obs
-
-
-def created_counts(hist: Dict[str, Any]) -> List[int]:
-    """SDL only: `_get_iterator` calls of the current loader object after each op (a K-D observable: the
-    model mirrors the code; not used by the oracle)."""
-    fac = dict(sdl_factories)[hist.get("factory", "nw0")]
-    logging.getLogger("torchdata.stateful_dataloader.stateful_dataloader").setLevel(logging.ERROR)
-    obj, handle, toks, out = fac(hist), None, [], []
-    for op in hist["ops"]:
-        try:
-            if op[0] == "iter":
-                handle = iter(obj)
-            elif op[0] in ("next", "exhaust") and handle is not None:
-                for _ in range(op[1] if op[0] == "next" else LIMIT):
-                    try:
-                        next(handle)
-                    except StopIteration:
-                        break
-            elif op[0] == "sd":
-                toks.append(obj.state_dict())
-            elif op[0] == "peek":
-                obj.state_dict()
-            elif op[0] == "load":
-                obj.load_state_dict(toks[op[1]])
-            elif op[0] == "abandon":
-                handle = None
-            elif op[0] == "fresh":
-                handle, obj = None, fac(hist)
-        except Exception:
-            pass
-        out.append(getattr(obj, "created", 0))
-    return out
 
 
 # ------------------------------------------------------------------------------------------------
@@ -300,8 +302,8 @@ class Reference:
     `drops`: load_state_dict drops the current iterator (StatefulDataLoader) or keeps it (nodes Loader).
     """
 
-    def __init__(self, epochs: Callable[[int], List[Any]], restart: bool, drops: bool):
-        self.epochs, self.restart, self.drops = epochs, restart, drops
+    def __init__(self, epochs: Callable[[int], List[Any]], restart: bool, drops: bool, show_epoch: bool = False):
+        self.epochs, self.restart, self.drops, self.show_epoch = epochs, restart, drops, show_epoch
         self.toks: List[Tuple[int, int]] = []
         self.fresh()
 
@@ -347,17 +349,26 @@ class Reference:
                 break
         return ["items", items, stopped]
 
+    def denote(self, i: int) -> List[Any]:
+        """What token i stands for: the rest of its epoch, or the next epoch if it was taken after the last
+        item (restart), as the items a loader resumed from it delivers first."""
+        e, p = self.toks[i]
+        if p >= len(self.epochs(e)) and self.restart:
+            e, p = e + 1, 0
+        rest = self.epochs(e)[p:]
+        return [rest[:DENOTE_CAP], len(rest) < DENOTE_CAP, e if self.show_epoch else None]
+
     def state_dict(self):
         if self.cur is None:
             self._start()
             self.reuse = True
         self.toks.append((self.cur.e, self.cur.p))
-        return ["tok", len(self.toks) - 1]
+        return ["tok", len(self.toks) - 1, self.denote(len(self.toks) - 1)]
 
     def peek(self):
         r = self.state_dict()
         self.toks.pop()
-        return ["tok", len(self.toks)]
+        return r
 
     def load(self, i: int):
         self.pending = self.toks[i]
@@ -372,7 +383,8 @@ def run_reference(hist: Dict[str, Any]) -> List[Any]:
 
 def _make_reference(hist):
     if hist["facade"] == "loader":
-        return Reference(lambda e: epoch_items(hist["root"], e), hist["restart"], drops=False)
+        return Reference(lambda e: epoch_items(hist["root"], e), hist["restart"], drops=False,
+                         show_epoch=hist["root"]["kind"] == "sampler")
     items = sdl_items(hist)
     return Reference(lambda e: items, True, drops=True)
 
@@ -481,7 +493,8 @@ def _liberal_loader_obs(hist):
             if had is not None and self.restart and had[1] < len(self.epochs(had[0])):
                 self.cur.req = True
 
-    ref = Q(lambda e: epoch_items(hist["root"], e), hist["restart"], drops=False)
+    ref = Q(lambda e: epoch_items(hist["root"], e), hist["restart"], drops=False,
+            show_epoch=hist["root"]["kind"] == "sampler")
     return _drive_reference(ref, hist)
 
 
@@ -499,13 +512,24 @@ def _liberal_sdl_obs(hist):
                 self.handle.stopped = True
             return r
 
+        def denote(self, i):
+            e, p = self.toks[i]
+            if self.stopped_toks[i]:
+                e, p = e + 1, 0
+            rest = self.epochs(e)[p:]
+            return [rest[:DENOTE_CAP], len(rest) < DENOTE_CAP, None]
+
         def state_dict(self):
-            r = super().state_dict()
+            if self.cur is None:
+                self._start()
+                self.reuse = True
             self.stopped_toks.append(getattr(self.cur, "stopped", False))
-            return r
+            self.toks.append((self.cur.e, self.cur.p))
+            return ["tok", len(self.toks) - 1, self.denote(len(self.toks) - 1)]
 
         def peek(self):
-            r = super().peek()
+            r = self.state_dict()
+            self.toks.pop()
             self.stopped_toks.pop()
             return r
 
@@ -618,7 +642,8 @@ KNOWN = {
 
 def check_history(ctx: Ctx, hist: Dict[str, Any], reqs: List[Any], metas: List[Any]):
     fac = hist["facade"]
-    real = run_real(hist)
+    made: Optional[List[int]] = [] if fac == "sdl" else None
+    real = run_real(hist, made)
     ref = run_reference(hist)
     nt = nontrivial(hist)
     ctx.case("ko_" + fac, hist, nt)
@@ -638,7 +663,7 @@ def check_history(ctx: Ctx, hist: Dict[str, Any], reqs: List[Any], metas: List[A
         if not ok:
             ctx.fail("peek_transparency", hist, msg)
     reqs.append(lean_request(hist))
-    metas.append((hist, real, ref, created_counts(hist) if fac == "sdl" else None, nt))
+    metas.append((hist, real, ref, made, nt))
 
 
 def compare_with_model(ctx: Ctx, answers, metas):
